@@ -54,7 +54,7 @@ Print Assumptions c03_pipefail_status.
 
 (** nounset_table: brush's decision "this expansion of an unset parameter is an error under
     set -u" equals bash's on every row of the (form x name kind) table *)
-Theorem c03_nounset_table : forall f k, In f all_forms -> In k all_kinds ->
+Theorem c03_nounset_table : forall f k, In f all_forms -> In k all_kinds -> applicable f k = true ->
   model_rejects f k = bash_rejects f k \/ known_nounset_divergence f k = true.
 Proof. exact nounset_table. Qed.
 Print Assumptions c03_nounset_table.
